@@ -42,7 +42,7 @@ def main():
 
     result = {"violation": None}
     for part_i, part in enumerate(parts):
-        pname, strat, nsched, extra = part["name"], part["strategy"], part["nsched"], part.get("args", [])
+        pname, strat, nsched, extra = part["name"], props.dirty_wrap(part["strategy"]), part["nsched"], part.get("args", [])
         share = part.get("share", 1.0 / len(parts))
         n_ex = max(1, int(n_examples * share))
         budget_end = t0 + a.budget * sum(p.get("share", 1.0 / len(parts)) for p in parts[: part_i + 1])
